@@ -502,6 +502,10 @@ def run(F, R):
     # exactly when no bytes are buffered - a full buffer is not empty (C17.V6)
     from .C17 import v6b_is_empty
     guard(R, 'X9', 'is-empty', lambda: v6b_is_empty(F, RuleProxy(R, {'V6': 'X9'})))
+    # X10: data buffered before a peer shutdown is read back intact: the receive buffer's add / drain follow modular ring indexing,
+    # also for reads that cross the end of the storage (C17.V6 index arithmetic)
+    from .C17 import v6_ring
+    guard(R, 'X10', 'ring-arithmetic', lambda: v6_ring(F, RuleProxy(R, {'V6': 'X10'})))
     M = model(F)
     M.require_rings()
     roles = C05.classify_api(C05.queue_api(F, M))
